@@ -11,8 +11,8 @@ the float code; no float is ever compared.
 
 Sliding window. `GetCounts` and `Incr` are two atomic steps (each holds the entry mutex) with an
 interleaving point between them — the middleware calls them one after the other without a lock.
-Time is in nanoseconds since the Unix epoch; the window length is a whole number of seconds that
-divides the epoch offset of Go's zero time, so `now.Truncate(window).Unix()` is `⌊now/W⌋·W`.
+Time is in nanoseconds since the Unix epoch; the window length is a whole number of seconds, and
+`now.Truncate(window).Unix()` is computed on the grid anchored at Go's zero time (`windowStart`).
 Core Lean only.
 -/
 namespace Rivaas.RateLimit
@@ -102,6 +102,47 @@ def run (r B : Int) : Bucket → List Int → Bucket × List Bool
 
 def countTrue (l : List Bool) : Nat := (l.filter id).length
 
+/-! ## the store's cleanup loop, seen from one key -/
+
+/-- what happens to one key's entry: a call `Allow(key, t)`, or a tick of `cleanupLoop` at instant
+    `now` (one clock, ticks of 1/512 s) -/
+inductive KeyOp
+  | call (t : Int)
+  | cleanup (now : Int)
+  deriving DecidableEq, Repr
+
+/-- `cleanupLoop` on one entry (after the `fix:` commit for K16d): an entry idle for more than `ttl`
+    is deleted, but only once the idle time has refilled it completely -/
+def dropsEntry (r B ttl : Int) (now : Int) (e : Bucket) : Bool :=
+  decide (e.last < now - ttl) && decide (e.tok + (now - e.last) * r ≥ B)
+
+/-- as shipped before K16d (and as in any variant that honours a TTL without the refill test):
+    every idle entry is deleted -/
+def dropsEntryAsIs (_r _B ttl : Int) (now : Int) (e : Bucket) : Bool := decide (e.last < now - ttl)
+
+/-- one key's entry under calls and cleanup ticks; the answers to the calls -/
+def runOpsWith (drops : Int → Int → Int → Int → Bucket → Bool) (r B ttl : Int) : Option Bucket → List KeyOp → List Out
+  | _, [] => []
+  | e, .call t :: rest =>
+    (allow r B (e.getD { tok := B, last := t }) t).2 ::
+      runOpsWith drops r B ttl (some (allow r B (e.getD { tok := B, last := t }) t).1) rest
+  | none, .cleanup _ :: rest => runOpsWith drops r B ttl none rest
+  | some b, .cleanup now :: rest =>
+    runOpsWith drops r B ttl (if drops r B ttl now b then none else some b) rest
+
+def runOps (r B ttl : Int) (e : Option Bucket) (ops : List KeyOp) : List Out := runOpsWith dropsEntry r B ttl e ops
+def runOpsAsIs (r B ttl : Int) (e : Option Bucket) (ops : List KeyOp) : List Out := runOpsWith dropsEntryAsIs r B ttl e ops
+
+def KeyOp.time : KeyOp → Int
+  | .call t => t
+  | .cleanup now => now
+
+/-- the calls of an operation list -/
+def callsOf : List KeyOp → List KeyOp
+  | [] => []
+  | .call t :: rest => .call t :: callsOf rest
+  | .cleanup _ :: rest => callsOf rest
+
 /-! ## token bucket middleware (`WithTokenBucket`) -/
 
 structure MwCfg where
@@ -148,8 +189,13 @@ structure Win where
 
 def nsPerSec : Nat := 1000000000
 
-/-- `now.Truncate(window).Unix()` for a window of `W` whole seconds, `now` in ns -/
-def windowStart (W now : Nat) : Nat := (now / (W * nsPerSec)) * W
+/-- seconds from Go's zero time (January 1, year 1 UTC) to the Unix epoch -/
+def zeroOffset : Nat := 62135596800
+
+/-- `now.Truncate(window).Unix()` for a window of `W` whole seconds, `now` in ns since the Unix
+    epoch: `Truncate` rounds down to a multiple of the window counted from Go's *zero time*, not from
+    the epoch — the two grids coincide only when `W` divides 86400 s -/
+def windowStart (W now : Nat) : Nat := ((now + zeroOffset * nsPerSec) / (W * nsPerSec)) * W - zeroOffset
 
 /-- `GetCounts`: roll the entry if a new window has begun, return it -/
 def getCounts (W : Nat) (e : Option Win) (now : Nat) : Win :=
